@@ -133,3 +133,12 @@ impl<const ROUNDS: usize> State<ROUNDS> {
         write_u32v_le(&mut output[16..32], &self.state[12..16]);
     }
 }
+
+#[cfg(feature = "verif-hooks")]
+impl<const ROUNDS: usize> State<ROUNDS> {
+    /// verification hook: set the two low counter words (state words 12 and 13)
+    pub(crate) fn verif_set_counter64(&mut self, lo: u32, hi: u32) {
+        self.state[12] = lo;
+        self.state[13] = hi;
+    }
+}
